@@ -377,6 +377,12 @@ def add_bench(m, path, indent, raw_name, form="plain", args=None, types=None, co
         elif style == "values":
             inner = ("bencher.with_inputs(|| { crate::rt::aux(%d, \"gen\"); 3u64 }).input_counter(|v: &u64| { crate::rt::aux(%d, \"count\"); "
                      "divan::counter::BytesCount::new(*v) }).bench_values(|v| { %s; v });" % (bid, bid, call))
+        elif style == "values_chars":
+            inner = ("bencher.with_inputs(|| { crate::rt::aux(%d, \"gen\"); 3u64 }).input_counter(|v: &u64| { crate::rt::aux(%d, \"count\"); "
+                     "divan::counter::CharsCount::new(*v + 1) }).bench_values(|v| { %s; v });" % (bid, bid, call))
+        elif style == "refs_cycles_items":
+            inner = ("bencher.with_inputs(|| { crate::rt::aux(%d, \"gen\"); 5u64 }).input_counter(|v: &u64| divan::counter::CyclesCount::new(*v))"
+                     ".input_counter(|v: &u64| divan::counter::ItemsCount::new(*v * 2)).bench_refs(|v| { %s; *v });" % (bid, call))
         elif style == "values_costly":
             # generating an input costs 3000 ticks of untimed (external) time
             inner = ("bencher.with_inputs(|| { crate::rt::aux(%d, \"gen\"); crate::rt::cost(3000); 3u64 })"
